@@ -7,6 +7,7 @@ from ..seams import CLOCK, F, T, reset_world, HarnessError
 from ..seams import LIB_ERRORS
 from ..core import real
 from ..oracle import ambient_plugins
+from ..oracle import caching_flags_off
 from ..oracle import (ACCEPT, REJECT, EITHER, slack3, slack_tripped_int, and3,
                       verdict3, validsig, sha256, shake256, pubkey_of_seed,
                       bool_of, base_mult, point_add, as_key_arg, PREFIXES, DECORATIONS, SUFFIXES,
@@ -337,6 +338,10 @@ def model(out, created, keys, items, t, reads, thr):
 
 def execute(plan, run):
     reset_world(plan['run_seed'])
+    if plan['idx'] % 7 == 3:
+        # every seventh run: some of the cache-this-value flags are switched off
+        if caching_flags_off(plan['run_seed']):
+            run.probe('caching_flags_off')
     if plan['idx'] % 5 == 2:
         # every fifth run: unrelated do-nothing plugins are registered in this process
         ambient_plugins()
